@@ -490,10 +490,11 @@ func runC08(c *core.Ctx) {
 					return false
 				}
 				bounded := false
+				strictOK := true
 				for _, ifi := range core.Ifs(fn) {
 					if ifi.Block() == s || s.Dominates(ifi.Block()) {
 						cd := core.CondOf(ifi)
-						for _, side := range [][2]ssa.Value{{cd.X, cd.Y}, {cd.Y, cd.X}} {
+						for si, side := range [][2]ssa.Value{{cd.X, cd.Y}, {cd.Y, cd.X}} {
 							if side[0] == nil || side[1] == nil {
 								continue
 							}
@@ -504,10 +505,31 @@ func runC08(c *core.Ctx) {
 							if f, _ := core.FieldOf(stripConv(side[1])); isCfgInt(f) {
 								if _, isLoad := stripConv(side[1]).(*ssa.UnOp); isLoad {
 									bounded = true
+									// and another byte is read only while the length is strictly below it: the relation
+									// len OP max that holds on the edge that stays in the loop must be <
+									op := cd.Op
+									if si == 1 { // operands were (max, len): mirror
+										op = map[token.Token]token.Token{token.LSS: token.GTR, token.GTR: token.LSS, token.LEQ: token.GEQ, token.GEQ: token.LEQ, token.EQL: token.EQL, token.NEQ: token.NEQ}[op]
+									}
+									for bi, succ := range ifi.Block().Succs {
+										if succ != b && !succ.Dominates(b) {
+											continue
+										}
+										rel := op
+										if bi == 1 {
+											rel = map[token.Token]token.Token{token.LSS: token.GEQ, token.GEQ: token.LSS, token.GTR: token.LEQ, token.LEQ: token.GTR, token.EQL: token.NEQ, token.NEQ: token.EQL}[op]
+										}
+										if rel == token.LEQ {
+											strictOK = false
+										}
+									}
 								}
 							}
 						}
 					}
+				}
+				if bounded {
+					c.Check(strictOK, "R3", "loop-bounded-strictly/"+fc.t.Obj().Name(), p.InstrPos(start), "another byte is read only while the accumulated length is below the maximum", "the accumulating loop keeps reading while the length EQUALS the configured maximum (<= instead of <): a frame one byte longer than the maximum is buffered and delivered")
 				}
 				c.Check(bounded, "R3", "loop-bounded/"+fc.t.Obj().Name(), p.InstrPos(start), "the accumulated length is compared with the configured maximum itself", "a decoder loop that accumulates input is not bounded by the configured maximum frame length itself (no bound, or the maximum widened by an extra term: oversized frames are delivered)")
 			}
